@@ -463,6 +463,11 @@ pub struct NetCase {
     /// sub-delims of the credentials and the vhost are written literally in the URL
     #[serde(default)]
     pub sub_delims_literal: bool,
+    /// (with multi_addr) the first address of the name does not refuse the connection but
+    /// accepts it and stays silent, and the URL carries connection_timeout=300: the attempt on
+    /// the next address must again have the whole timeout and all the other parameters
+    #[serde(default)]
+    pub silent_first: bool,
 }
 
 const MULTI_NAME: &str = "avh-multi.test";
@@ -647,6 +652,23 @@ pub fn exec_net(c: &NetCase) -> Outcome {
     };
     let port = listener.local_addr().unwrap().port();
     let mut params = Vec::new();
+    // a listener on the address the resolver puts first that accepts and never answers
+    let silent = if host == MULTI_NAME && c.silent_first { TcpListener::bind(("127.0.0.1", port)).ok() } else { None };
+    let silent_stop = std::sync::Arc::new(std::sync::atomic::AtomicBool::new(false));
+    if let Some(l) = silent.as_ref().and_then(|l| l.try_clone().ok()) {
+        let stop = silent_stop.clone();
+        let _ = l.set_nonblocking(true);
+        std::thread::spawn(move || {
+            let mut held = Vec::new();
+            while !stop.load(std::sync::atomic::Ordering::SeqCst) {
+                if let Ok((s, _)) = l.accept() {
+                    held.push(s);
+                }
+                std::thread::sleep(Duration::from_millis(2));
+            }
+        });
+        params.push(Param::Timeout("300".into()));
+    }
     if let Some(h) = c.heartbeat {
         params.push(Param::Heartbeat(h.to_string()));
     }
@@ -681,6 +703,7 @@ pub fn exec_net(c: &NetCase) -> Outcome {
         conn.close()
     });
     client_done.store(true, std::sync::atomic::Ordering::SeqCst);
+    silent_stop.store(true, std::sync::atomic::Ordering::SeqCst);
     let seen = broker.join().ok().flatten();
     match res {
         None => return Outcome::hang("net-open-hang", format!("{}: insecure_open/close did not return", url)),
@@ -717,6 +740,8 @@ pub fn exec_net(c: &NetCase) -> Outcome {
     }
     Outcome::pass(true).label(if host == "[::1]" {
         "loopback-ipv6-literal"
+    } else if host == MULTI_NAME && silent.is_some() {
+        "host-name-with-three-addresses-first-one-accepts-and-stays-silent"
     } else if host == MULTI_NAME {
         "host-name-with-three-addresses-last-one-listening"
     } else if c.multi_addr {
@@ -741,8 +766,9 @@ fn strat_net(_t: Tier) -> BoxedStrategy<NetCase> {
         prop::bool::weighted(0.3),
         prop::bool::weighted(0.25),
         prop::bool::weighted(0.4),
+        prop::bool::weighted(0.3),
     )
-        .prop_map(|(user, pass, vhost, heartbeat, channel_max, external, ipv6, multi_addr, sub_delims_literal)| NetCase {
+        .prop_map(|(user, pass, vhost, heartbeat, channel_max, external, ipv6, multi_addr, sub_delims_literal, silent_first)| NetCase {
             user,
             pass,
             vhost,
@@ -752,6 +778,7 @@ fn strat_net(_t: Tier) -> BoxedStrategy<NetCase> {
             ipv6,
             multi_addr,
             sub_delims_literal,
+            silent_first,
         })
         .boxed()
 }
@@ -854,7 +881,7 @@ pub fn parts() -> Vec<Box<dyn PartDyn>> {
         }),
         Box::new(Part::<NetCase> {
             name: "loopback",
-            rule: "Connection::insecure_open(url) against a loopback TCP broker inside the harness, named in the URL as 127.0.0.1 or (30 %, where the machine has an IPv6 loopback) as the literal [::1], or (25 %, where the harness can bind its own DNS responder on 127.0.0.1:53) by a host name that resolves to three loopback addresses of which only the last one tried listens: StartOk mechanism/response, Open.virtual_host and TuneOk must be what the URL spells out; every case non-trivial",
+            rule: "Connection::insecure_open(url) against a loopback TCP broker inside the harness, named in the URL as 127.0.0.1 or (30 %, where the machine has an IPv6 loopback) as the literal [::1], or (25 %, where the harness can bind its own DNS responder on 127.0.0.1:53) by a host name that resolves to three loopback addresses of which only the last one tried listens (the first one either refuses or accepts and stays silent while the URL sets connection_timeout=300): StartOk mechanism/response, Open.virtual_host and TuneOk must be what the URL spells out; every case non-trivial",
             cases: |t| t.pick(100, 3000),
             threads: 8,
             strategy: strat_net,
